@@ -48,6 +48,7 @@ pub fn model_space(tier: Tier) -> Vec<Model> {
             v.extend(gen::m9(0));
             v.extend(gen::m10(0));
             v.extend(gen::m11(0));
+            v.extend(gen::m12(0));
         }
         Tier::Thorough => {
             v.extend(gen::m1(1));
@@ -61,6 +62,7 @@ pub fn model_space(tier: Tier) -> Vec<Model> {
             v.extend(gen::m9(1));
             v.extend(gen::m10(1));
             v.extend(gen::m11(1));
+            v.extend(gen::m12(1));
         }
     }
     v
